@@ -26,6 +26,7 @@ def concerns(div_line, pid):
 
 
 def build_all(cfgs):
+    build.warm(cfgs, [('pool', ['h_pool.cpp'], {}), ('stack', ['h_stack.cpp'], {}), ('iter', ['h_iter.cpp'], {})])
     return ({c: build.build_harness('pool', c, ['h_pool.cpp']) for c in cfgs},
             {c: build.build_harness('stack', c, ['h_stack.cpp']) for c in cfgs},
             {c: build.build_harness('iter', c, ['h_iter.cpp']) for c in cfgs})
